@@ -217,7 +217,9 @@ func init() {
 			}
 			return fd, nil
 		}
-		def := func(name string, xs []string) { fmt.Fprintf(&sb, "def %s : List String := %s\n", name, LeanStrList(xs)) }
+		def := func(name string, xs []string) {
+			fmt.Fprintf(&sb, "def %s : List String := %s\n", name, LeanStrList(xs))
+		}
 
 		ver, err := parse("kv/version/version.go")
 		if err != nil {
@@ -275,7 +277,9 @@ func init() {
 				return c02Events(fd, c02Keep("mutex.Lock", "defer:mutex.Unlock", "vs.persistEditLogs", "familyVersion.GetSnapshot",
 					"defer:snapshot.Close", "snapshot.GetCurrent().Clone", "editLog.apply", "familyVersion.appendVersion"))
 			}},
-			{"nextFileNumberCalls", vs, "storeVersionSet", "NextFileNumber", func(fd *ast.FuncDecl) []string { return c02Events(fd, c02Keep("mutex.Lock", "defer:mutex.Unlock", "nextFileNumber.Inc")) }},
+			{"nextFileNumberCalls", vs, "storeVersionSet", "NextFileNumber", func(fd *ast.FuncDecl) []string {
+				return c02Events(fd, c02Keep("mutex.Lock", "defer:mutex.Unlock", "nextFileNumber.Inc"))
+			}},
 			{"deleteObsoleteOrder", fam, "family", "deleteObsoleteFiles", func(fd *ast.FuncDecl) []string {
 				return c02Events(fd, c02Keep("listDirFunc", "pendingOutputs.Range", "familyVersion.GetAllActiveFiles",
 					"familyVersion.GetLiveRollupFiles", "store.evictFamilyFile", "f.deleteSST"))
